@@ -31,6 +31,24 @@ FirstIdx(s) == IdxWhere(s, LAMBDA i : \A j \in 1..(i - 1) : s[j] # s[i])
 Mult(s, i) == Cardinality({j \in 1..Len(s) : s[j] = s[i]})
 
 CounterName(c) == IF c.o = "-n" THEN "n" ELSE "idx"
+
+\* grep: "formatting each record in memory as DKVP (or NIDX, if -a is supplied), using OFS "," and OPS "=", and matching
+\* the resulting line against the regex".  Texts are sequences of one-character strings (field names and values of the
+\* case space are at most one character long); the patterns of the case space are literal texts (no regex operators), so
+\* "matches" is "contains"; -i folds the letters of both sides.
+Chars(v) == IF v = "" THEN <<>> ELSE <<v>>
+GrepText(r, valuesOnly) ==
+  LET part(i) == IF valuesOnly THEN Chars(r[i][2]) ELSE <<r[i][1], "=">> \o Chars(r[i][2])
+      RECURSIVE From(_)
+      From(i) == IF i > Len(r) THEN <<>> ELSE (IF i > 1 THEN <<",">> ELSE <<>>) \o part(i) \o From(i + 1)
+  IN From(1)
+FoldChar(ch) == CASE ch = "A" -> "a" [] ch = "B" -> "b" [] ch = "X" -> "x" [] ch = "Y" -> "y" [] OTHER -> ch
+Fold(t) == [i \in 1..Len(t) |-> FoldChar(t[i])]
+Contains(t, p) == \E i \in 0..(Len(t) - Len(p)) : SubSeq(t, i + 1, i + Len(p)) = p
+HasOpt(c, x) == \E i \in 1..Len(c.o) : c.o[i] = x
+GrepMatches(c, r) ==
+  LET t == GrepText(r, HasOpt(c, "-a")) IN
+  IF HasOpt(c, "-i") THEN Contains(Fold(t), Fold(c.g)) ELSE Contains(t, c.g)
 Expected(c, s) ==
   LET g == c.g  n == c.n IN
   CASE c.v = "cat" /\ c.o = ""  -> s
@@ -48,6 +66,14 @@ Expected(c, s) ==
          (CASE c.o = "--at-least"  -> SelIdx(s, LAMBDA i : want \subseteq KeySet(s[i]))
             [] c.o = "--which-are" -> SelIdx(s, LAMBDA i : want = KeySet(s[i]))
             [] c.o = "--at-most"   -> SelIdx(s, LAMBDA i : KeySet(s[i]) \subseteq want))
+    \* the regex modes: c.g = <<pattern text>>, c.m = the field names of the case space the pattern matches (derived with
+    \* the pattern in the case module: anchored names, a character class, a case-insensitive literal)
+    [] c.v = "having-fields-re" ->
+         LET m == {c.m[i] : i \in 1..Len(c.m)} IN      \* (the records of the case space have at least one field)
+         (CASE c.o = "--all-matching"  -> SelIdx(s, LAMBDA i : KeySet(s[i]) \subseteq m)
+            [] c.o = "--any-matching"  -> SelIdx(s, LAMBDA i : KeySet(s[i]) \cap m # {})
+            [] c.o = "--none-matching" -> SelIdx(s, LAMBDA i : KeySet(s[i]) \cap m = {}))
+    [] c.v = "grep" -> SelIdx(s, LAMBDA i : GrepMatches(c, s[i]) # HasOpt(c, "-v"))
     [] c.v = "group-by" -> Grouped(s, g)
     [] c.v = "group-like" ->
          LET firsts == IdxWhere(s, LAMBDA i : \A j \in 1..(i - 1) : KeysOf(s[j]) # KeysOf(s[i]))
